@@ -529,6 +529,9 @@ pub struct Pg<'a> {
     pub loops: usize,
     /// blocks of already assembled functions that later functions may jump into
     foreign_targets: Vec<u64>,
+    /// shared tails of already assembled functions: blocks that dereference the value in RAX and are only reached by
+    /// jumps from other functions (function index, block address)
+    landing: Vec<(usize, u64)>,
     pub features: BTreeSet<String>,
     /// names of functions that call a privilege function / system (CWE426 bookkeeping)
     has_chdir_symbol_calls: bool,
@@ -1591,6 +1594,53 @@ impl Fg {
         self.asm.emit(vec![op1("COPY", r8("RAX"), r8("RAX"))]);
     }
 
+    /// A tail shared with other functions: a block of this function's body that this function itself jumps over; it
+    /// dereferences the value in RAX and falls through into the following code.
+    fn t_landing(&mut self, pg: &mut Pg) {
+        let over = self.asm.label();
+        self.asm.push(vec![op1("COPY", r8("RAX"), r8("RAX"))], Fin::Jmp(over));
+        let l = self.asm.label();
+        self.asm.bind(l);
+        let addr = self.here(pg);
+        let t = self.asm.tmp(8);
+        let off = 8 * pg.rng.below(4) as i64;
+        self.asm.emit(vec![op2("INT_ADD", t.clone(), r8("RAX"), vconst_i(off, 8)), op_load(r8("RCX"), t)]);
+        self.asm.bind(over);
+        self.asm.emit(vec![op1("COPY", r8("RAX"), r8("RAX"))]);
+        pg.landing.push((self.fidx, addr));
+        pg.feat("shared-tail-block");
+    }
+
+    /// Allocate, then leave on two different conditions into two shared tails of earlier functions with the unchecked
+    /// result still in RAX (the function then contains copies of two or more foreign blocks).
+    fn t_alloc_fork(&mut self, pg: &mut Pg) -> bool {
+        let mut cands: Vec<u64> = pg.landing.iter().filter(|(f, _)| *f != self.fidx).map(|x| x.1).collect();
+        if cands.len() < 2 {
+            return false;
+        }
+        pg.rng.shuffle(&mut cands);
+        let name = if pg.lkm() { "__kmalloc" } else { "malloc" };
+        self.mov_ri(pg, "RDI", 0x20);
+        if pg.lkm() {
+            self.mov_ri(pg, "RSI", 0xcc0);
+        }
+        if !self.call_named(pg, name) {
+            return false;
+        }
+        for target in cands.into_iter().take(2) {
+            let k = pg.rng.usize_below(6);
+            let c = pg.rng.below(4);
+            self.cmp_slot_imm(pg, k, c);
+            let skip = self.asm.label();
+            self.jcc(pg, skip);
+            self.asm.push(vec![op1("COPY", r8("RDX"), r8("RDX"))], Fin::JmpForeign(target));
+            self.asm.bind(skip);
+            self.asm.emit(vec![op1("COPY", r8("RAX"), r8("RAX"))]);
+        }
+        pg.feat("alloc-then-two-shared-tails");
+        true
+    }
+
     fn stmt(&mut self, pg: &mut Pg, depth: u32) {
         self.budget -= 1;
         let structured = depth < 2 && self.budget > 2;
@@ -1618,7 +1668,18 @@ impl Fg {
             30..=32 => self.t_if(pg, depth),
             33..=36 => self.t_loop(pg, depth),
             37 => self.t_switch(pg, depth),
-            _ => self.t_exit(pg),
+            _ => {
+                let r2 = pg.rng.below(if pg.opts.order_bias { 3 } else { 8 });
+                if r2 == 0 && self.fidx + 1 < pg.n_funcs {
+                    self.t_landing(pg)
+                } else if r2 == 1 {
+                    if !self.t_alloc_fork(pg) {
+                        self.t_exit(pg)
+                    }
+                } else {
+                    self.t_exit(pg)
+                }
+            }
         }
     }
 
@@ -1653,6 +1714,17 @@ fn gen_function(pg: &mut Pg, fidx: usize) -> (Assembled, bool, bool) {
     }
     let nargs = pg.rng.usize_below(3);
     f.prologue(pg, nargs);
+    if pg.opts.order_bias {
+        if fidx + 1 < pg.n_funcs && pg.rng.chance(1, 3) {
+            f.t_landing(pg);
+            if pg.rng.bool() {
+                f.t_landing(pg);
+            }
+        }
+        if pg.rng.chance(1, 3) {
+            f.t_alloc_fork(pg);
+        }
+    }
     let n = 2 + pg.rng.usize_below(6);
     f.stmts(pg, 0, n);
     // return value
@@ -1807,6 +1879,7 @@ pub fn gen_input(rng: &mut Rng, opts: &GenOpts) -> Input {
         n_funcs,
         loops: 0,
         foreign_targets: Vec::new(),
+        landing: Vec::new(),
         features: BTreeSet::new(),
         has_chdir_symbol_calls: false,
     };
@@ -1960,6 +2033,7 @@ fn tiny(chain: bool) -> Input {
         n_funcs: 1,
         loops: 0,
         foreign_targets: Vec::new(),
+        landing: Vec::new(),
         features: BTreeSet::new(),
         has_chdir_symbol_calls: false,
     };
